@@ -12,7 +12,7 @@
     theorem holds for all of them. *)
 From Coq Require Import ZArith QArith List Bool String Permutation Sorted.
 From Verif Require Import Base Cal Tables Period Builder BuilderSpec BuilderProofs BuilderGroupProofs
-  BuilderValueProofs BuilderRejectProofs BuilderOwnProofs.
+  BuilderValueProofs BuilderRejectProofs BuilderOwnProofs BuilderAxesProofs.
 Import ListNotations.
 Open Scope Z_scope.
 Open Scope string_scope.
@@ -490,29 +490,38 @@ Print Assumptions own_groups.
 
 (** * 5. Axes *)
 
-(** full statement: the simulation built from a document with axes is the concatenation, cell
-    after cell, of the simulations built from the copies it stands for (ids suffixed with their
-    rank, memberships shifted by the number of groups per copy) *)
-Definition axes_is_concatenation_statement : Prop :=
+(** Document level, entities: the simulation built from a document with axes has, for every
+    entity, [cell_count] copies of the entities of the simulation built from the same document
+    with the axes put aside: ids suffixed with their rank, roles repeated, memberships of copy c
+    shifted by c times the number of groups. *)
+Theorem axes_entities_concatenation : forall x s doc dims ds sim base,
+  NoDup (plurals s) -> NoDup (singulars s) ->
+  aget "axes" doc = Some dims -> dims <> JNull -> parse_dims dims = Ok ds ->
+  build_from_entities x s doc = Ok sim ->
+  build_from_entities x s (aremove "axes" doc) = Ok base ->
+  let cells := Z.to_nat (cell_count ds) in
+  forall e pop bpop, In e (entities s) -> pop_of sim e pop -> pop_of base e bpop ->
+    p_ids pop = suffix_ids (repeat_list (p_ids bpop) cells) /\
+    p_mroles pop = repeat_list (p_mroles bpop) cells /\
+    p_members pop = tile_members (p_members bpop) (Z.of_nat (List.length (p_ids bpop))) 0 cells.
+Proof. exact axes_entities_doc. Qed.
+Print Assumptions axes_entities_concatenation.
+
+(** full statement for the VALUES (not proved): a variable that no axis names holds the copies'
+    arrays one after the other; the variable of an axis holds, in cell [c], the value of the
+    cell at the axis index and what the copy holds elsewhere *)
+Definition axes_values_concatenation_statement : Prop :=
   forall x s doc dims ds sim base, wf_sys s ->
-    aget "axes" doc = Some dims -> parse_dims dims = Ok ds ->
+    aget "axes" doc = Some dims -> dims <> JNull -> parse_dims dims = Ok ds ->
     build_from_entities x s doc = Ok sim ->
-    build_from_entities x s (aremove "axes" doc) = Ok base ->      (* one copy, axes put aside *)
+    build_from_entities x s (aremove "axes" doc) = Ok base ->
     let cells := Z.to_nat (cell_count ds) in
     let counts := map dim_count ds in
     forall e pop bpop, In e (entities s) -> pop_of sim e pop -> pop_of base e bpop ->
       let n := List.length (p_ids bpop) in
-      (* entities: [cells] copies, ids suffixed with their rank, memberships shifted *)
-      p_ids pop = suffix_ids (repeat_list (p_ids bpop) cells) /\
-      p_mroles pop = repeat_list (p_mroles bpop) cells /\
-      p_members pop = tile_members (p_members bpop)
-                        (Z.of_nat (List.length (p_ids bpop))) 0 cells /\
-      (* a variable that no axis names: the copies' arrays one after the other *)
       (forall vn, (forall d a, In d ds -> In a d -> a_name a <> vn) ->
-         forall h bh, aget vn (p_holders pop) = Some h -> aget vn (p_holders bpop) = Some bh ->
-           h = map (fun pa => (fst pa, repeat_list (snd pa) cells)) bh) /\
-      (* the variable of an axis (no set-input rule): in cell [c] the instance at the axis index
-         holds the value of the cell, the other instances what the copy holds *)
+         forall h bh p, aget vn (p_holders pop) = Some h -> aget vn (p_holders bpop) = Some bh ->
+           hget h p = option_map (fun a => repeat_list a cells) (hget bh p)) /\
       (forall di d a v p t, nth_error ds di = Some d -> In a d -> find_var (a_name a) (s_vars s) = Some v ->
          v_entity v = e_key e -> v_rule v = RNone -> a_period a = Some t -> canon_key (tok x t) = Ok p ->
          forall arr, (exists h, aget (a_name a) (p_holders pop) = Some h /\ hget h p = Some arr) ->
@@ -526,13 +535,12 @@ Definition axes_is_concatenation_statement : Prop :=
            then Ok (nth (c * n + i) arr (v_default v)) = cell_of_q v q
            else forall barr, (exists bh, aget (a_name a) (p_holders bpop) = Some bh /\ hget bh p = Some barr) ->
                   nth_error arr (c * n + i) = nth_error barr i).
-(* Proved: the replication of the entities ([axes_entities_partial]: ids of every copy with
-   their rank as suffix, memberships of copy c shifted by c times the number of groups, roles
-   repeated: the functions that [expand_entities] applies).  Missing: [expand_entities] over
-   the dictionary of entities, the strided store [set_strided] as "cell c of the array gets the
-   c-th value at the axis index", and the commutation of the flush with the repetition of the
-   arrays (the set-input rules work element by element).  The correspondence check compares every axes document with
-   its expanded copies on the implementation and on the model. *)
+(* Proved: the entities at document level ([axes_entities_concatenation]) and the list functions
+   behind them ([axes_entities_partial]).  Missing for the values: the strided store
+   [set_strided] as "cell c of the array gets the c-th value at the axis index", and the
+   commutation of the flush with the repetition of the arrays (the set-input rules work element
+   by element).  The correspondence check compares every axes document with its expanded
+   copies, on the implementation and on the model. *)
 
 Theorem axes_entities_partial :
   (forall (l : list string) cells c i id,
